@@ -1251,6 +1251,14 @@ pub fn run(ctx: &Ctx) -> Outcome {
     vs.merge(r8.agg.vios);
     out.violations = vs.into_vec();
     out.guard_nonzero("client resets", out.coverage.get("mechanism_counters").and_then(|m| m.get("client_resets")).and_then(|v| v.as_u64()).unwrap_or(0));
+    {
+        let mut vs = VioSet::default();
+        for x in std::mem::take(&mut out.violations) {
+            vs.add(x);
+        }
+        crate::fill::sweep(&mut out, &mut vs, quick, "C19");
+        out.violations = vs.into_vec();
+    }
     let t1 = run_t1_half(ctx);
     out.absorb(t1);
     out
